@@ -34,7 +34,9 @@ def comp_to_spec(d: dict) -> dict:
     """a component mapping of a YAML file -> specification component (rewards in milli-units)"""
     out = {}
     for k, v in d.items():
-        if k in build.MILLI_KEYS:
+        if k == 'name':
+            out[k] = str(v).split(':')[-1]      # custom components: "module:name"
+        elif k in build.MILLI_KEYS:
             out[k] = _milli(v)
         elif k in ('transition_functions', 'reward_functions', 'terminating_functions'):
             out[k] = [comp_to_spec(c) for c in v]
@@ -51,8 +53,8 @@ ALL_ACTIONS = ['MOVE_FORWARD', 'MOVE_BACKWARD', 'MOVE_LEFT', 'MOVE_RIGHT', 'TURN
 def spec_config(data: dict) -> dict:
     """the environment described by the configuration data, in the specification's vocabulary"""
     return {
-        'state_space': {'types': list(data['state_space']['objects']), 'colors': list(data['state_space']['colors'])},
-        'observation_space': {'types': list(data['observation_space']['objects']), 'colors': list(data['observation_space']['colors'])},
+        'state_space': {'types': [t.split(':')[-1] for t in data['state_space']['objects']], 'colors': list(data['state_space']['colors'])},
+        'observation_space': {'types': [t.split(':')[-1] for t in data['observation_space']['objects']], 'colors': list(data['observation_space']['colors'])},
         'actions': list(data.get('action_space', ALL_ACTIONS)),
         'reset': comp_to_spec(data['reset_function']),
         'comps': [comp_to_spec(c) for c in data['transition_functions']],
@@ -84,7 +86,7 @@ def reset_params(cfg: dict) -> dict:
         'empty': ['shape', 'random_agent', 'random_exit'], 'rooms': ['shape', 'layout'],
         'dynamic_obstacles': ['shape', 'num_obstacles', 'random_agent'], 'keydoor': ['shape'],
         'crossing': ['shape', 'num_rivers', 'object_type'], 'teleport': ['shape'], 'memory': ['shape', 'colors'],
-        'memory_rooms': ['shape', 'layout', 'colors', 'num_beacons', 'num_exits'],
+        'memory_rooms': ['shape', 'layout', 'colors', 'num_beacons', 'num_exits'], 'coin_maze': [],
     }[name]
     p = dict(defaults)
     p.update({k: v for k, v in r.items() if k in accepted})
